@@ -4,7 +4,7 @@
    and std's `Write::write_all` over a short / failing writer (C13, writer half).
 
    Output is modelled as a TRACE: the list of buffers handed to `io::Write::write_all`, one list element per call,
-   in order (empty buffers included: `indent` with an empty indent string still calls `write_all(b"")`).
+   in order (empty buffers included: `indent` with an empty indent string still calls write_all with an empty slice).
    [tr A] = (buffers written so far, outcome): on an error (`KeyMustBeAString`, ...) the buffers written before the
    error are kept, because the real writer has received them.
 
@@ -112,18 +112,18 @@ Definition f64_finite_bits (b : N) : bool := negb ((b / 4503599627370496) mod 20
 Definition f32_finite_bits (b : N) : bool := negb ((b / 8388608) mod 256 =? 255).
 
 (* ---- strings -------------------------------------------------------------------------------- *)
-Definition hex_lower (n : N) : N := if n <? 10 then 48 + n else 87 + n.        (* HEX_DIGITS = b"0123456789abcdef" *)
+Definition hex_lower (n : N) : N := if n <? 10 then 48 + n else 87 + n.        (* HEX_DIGITS: 0123456789abcdef *)
 
 (* CharEscape::from_escape_table followed by Formatter::write_char_escape: the bytes of one escape;
    None = unreachable!() *)
 Definition char_escape (escape byte : N) : option bytes :=
-  if escape =? 98 then Some [92; 98]               (* BB -> Backspace       -> b"\\b" *)
-  else if escape =? 116 then Some [92; 116]        (* TT -> Tab             -> b"\\t" *)
-  else if escape =? 110 then Some [92; 110]        (* NN -> LineFeed        -> b"\\n" *)
-  else if escape =? 102 then Some [92; 102]        (* FF -> FormFeed        -> b"\\f" *)
-  else if escape =? 114 then Some [92; 114]        (* RR -> CarriageReturn  -> b"\\r" *)
-  else if escape =? 34 then Some [92; 34]          (* QU -> Quote           -> b"\\\"" *)
-  else if escape =? 92 then Some [92; 92]          (* BS -> ReverseSolidus  -> b"\\\\" *)
+  if escape =? 98 then Some [92; 98]               (* BB -> Backspace: backslash b *)
+  else if escape =? 116 then Some [92; 116]        (* TT -> Tab *)
+  else if escape =? 110 then Some [92; 110]        (* NN -> LineFeed *)
+  else if escape =? 102 then Some [92; 102]        (* FF -> FormFeed *)
+  else if escape =? 114 then Some [92; 114]        (* RR -> CarriageReturn *)
+  else if escape =? 34 then Some [92; 34]          (* QU -> Quote: backslash quote *)
+  else if escape =? 92 then Some [92; 92]          (* BS -> ReverseSolidus: two backslashes *)
   else if escape =? 117 then                       (* UU -> AsciiControl(byte) -> \u00XX *)
     Some [92; 117; 48; 48; hex_lower (N.shiftr byte 4); hex_lower (N.land byte 15)]
   else None.
@@ -160,7 +160,7 @@ Definition collect_str (chunks : list bytes) : tr unit :=
   do* _ := collect_chunks chunks in
   end_string.
 
-(* "$serde_json::private::Number" *)
+(* number::TOKEN: $serde_json::private::Number *)
 Definition NUMBER_TOKEN : bytes :=
   [36;115;101;114;100;101;95;106;115;111;110;58;58;112;114;105;118;97;116;101;58;58;78;117;109;98;101;114].
 
